@@ -114,6 +114,7 @@ func vc05NewGeo() *agdtest.GeoIP {
 
 type vc05UpCall struct {
 	ecs    *dns.EDNS0_SUBNET
+	all    []*dns.EDNS0_SUBNET
 	hasOpt bool
 }
 
@@ -129,7 +130,16 @@ func vc05Scoped(name string) bool {
 
 func (u *vc05Upstream) ServeDNS(ctx context.Context, rw dnsserver.ResponseWriter, req *dns.Msg) (err error) {
 	e := vdns.ECSOpt(req)
-	u.calls = append(u.calls, vc05UpCall{ecs: e, hasOpt: req.IsEdns0() != nil})
+	var all []*dns.EDNS0_SUBNET
+	if opt := req.IsEdns0(); opt != nil {
+		for _, o := range opt.Option {
+			if sn, ok := o.(*dns.EDNS0_SUBNET); ok {
+				all = append(all, sn)
+			}
+		}
+	}
+
+	u.calls = append(u.calls, vc05UpCall{ecs: e, all: all, hasOpt: req.IsEdns0() != nil})
 	q := req.Question[0]
 	scoped := vc05Scoped(q.Name)
 	tag := ""
@@ -217,9 +227,15 @@ type vc05Client struct {
 	// bits for vc05BadHostBits.
 	Subnet netip.Prefix
 	Scope  uint8
+	// Second, if valid, is a second ECS option sent after the first.
+	Second netip.Prefix
 }
 
 func (c vc05Client) String() string {
+	if c.Second.IsValid() {
+		return fmt.Sprintf("{%s ecs=%s %s scope=%d second-ecs=%s}", c.Remote, vc05ModeNames[c.Mode], c.Subnet, c.Scope, c.Second)
+	}
+
 	return fmt.Sprintf("{%s ecs=%s %s scope=%d}", c.Remote, vc05ModeNames[c.Mode], c.Subnet, c.Scope)
 }
 
@@ -255,6 +271,18 @@ func vc05DrawClient(t *rapid.T) (c vc05Client) {
 			c.Subnet = c.Subnet.Masked()
 			if rapid.IntRange(0, 4).Draw(t, "queryScope") == 0 {
 				c.Scope = uint8(rapid.IntRange(1, bits).Draw(t, "scope"))
+			}
+
+			// Occasionally a second ECS option follows the first one (a
+			// client's own address, say); nothing of it may reach the upstream.
+			if rapid.IntRange(0, 5).Draw(t, "secondECS") == 3 {
+				sa := vc05DrawAddr(t, "ecs2", true)
+				sb := 24
+				if sa.Is6() {
+					sb = 56
+				}
+
+				c.Second = netip.PrefixFrom(sa, sb).Masked()
 			}
 		} else {
 			// Put one stray host bit inside the last octet that goes on the wire
@@ -306,17 +334,38 @@ func vc05RawECS(c vc05Client) (data []byte) {
 	return data
 }
 
-func vc05Exchange(t *rapid.T, s *vc05Stack, c vc05Client, req *dns.Msg) (resp *dns.Msg, nUp int, calls []vc05UpCall) {
+// vc05CountingRW counts the messages written to the client.
+type vc05CountingRW struct {
+	dnsserver.ResponseWriter
+
+	n    int
+	last *dns.Msg
+}
+
+func (w *vc05CountingRW) WriteMsg(ctx context.Context, req, resp *dns.Msg) (err error) {
+	w.n++
+	w.last = resp
+
+	return w.ResponseWriter.WriteMsg(ctx, req, resp)
+}
+
+// vc05Exchange serves one request.  writes is the number of responses the
+// client gets: what the handler wrote, plus the SERVFAIL that the DNS server
+// (ServerBase.serveDNSMsgInternal) sends whenever the handler returns an error.
+func vc05Exchange(t *rapid.T, s *vc05Stack, c vc05Client, req *dns.Msg) (resp *dns.Msg, nUp int, calls []vc05UpCall, writes int) {
 	raddr := &net.TCPAddr{IP: c.Remote.AsSlice(), Port: 4242}
 	laddr := &net.TCPAddr{IP: net.IP{127, 0, 0, 1}, Port: 853}
-	nrw := dnsserver.NewNonWriterResponseWriter(laddr, raddr)
+	rw := &vc05CountingRW{ResponseWriter: dnsserver.NewNonWriterResponseWriter(laddr, raddr)}
 	before := len(s.up.calls)
 	ctx := dnsserver.ContextWithRequestInfo(context.Background(), &dnsserver.RequestInfo{})
-	// A malformed ECS option makes the middleware return the (wrapped) ECS
-	// error after writing FORMERR; that is its documented flow.
-	_ = s.h.ServeDNS(ctx, nrw, req)
+	err := s.h.ServeDNS(ctx, rw, req)
+	writes, resp = rw.n, rw.last
+	if err != nil {
+		writes++
+		resp = (&dns.Msg{}).SetRcode(req, dns.RcodeServerFailure)
+	}
 
-	return nrw.Msg(), len(s.up.calls) - before, s.up.calls[before:]
+	return resp, len(s.up.calls) - before, s.up.calls[before:], writes
 }
 
 func vc05BuildReq(t *rapid.T, name string, qt uint16, do bool, c vc05Client) (req *dns.Msg) {
@@ -336,6 +385,10 @@ func vc05BuildReq(t *rapid.T, name string, qt uint16, do bool, c vc05Client) (re
 		}
 
 		opt.Option = append(opt.Option, &dns.EDNS0_LOCAL{Code: dns.EDNS0SUBNET, Data: vc05RawECS(c)})
+		if c.Second.IsValid() {
+			c2 := vc05Client{Mode: vc05Valid, Subnet: c.Second}
+			opt.Option = append(opt.Option, &dns.EDNS0_LOCAL{Code: dns.EDNS0SUBNET, Data: vc05RawECS(c2)})
+		}
 	}
 
 	// Through the wire, as in production.
@@ -356,7 +409,7 @@ func TestVerifC05History(tt *testing.T) {
 	t := tt
 	st := vstat.New("C05", "dnssvc.ecs-history",
 		"rapid histories of clients (v4/v6, known/unknown location, ECS none/valid/declined/malformed) asking overlapping scoped and unscoped names through ratelimitmw+ecscache in front of a subnet-tagging upstream; non-trivial = cache hit on a scoped name, or a declined or malformed request; distinct by (question, client ECS mode, effective subnet, hit)",
-		"hit-scoped", "declined", "malformed", "declined-after-scoped-cached", "scoped-other-subnet", "valid-ecs")
+		"hit-scoped", "declined", "malformed", "declined-after-scoped-cached", "scoped-other-subnet", "valid-ecs", "two-ecs-options")
 	st.Finish(t)
 
 	rapid.Check(t, func(t *rapid.T) {
@@ -389,7 +442,7 @@ func TestVerifC05History(tt *testing.T) {
 
 			c := vc05DrawClient(t)
 			req := vc05BuildReq(t, vdns.MixCase(t, a.name), a.qt, a.do, c)
-			resp, nUp, calls := vc05Exchange(t, s, c, req.Copy())
+			resp, nUp, calls, writes := vc05Exchange(t, s, c, req.Copy())
 			hist = append(hist, fmt.Sprintf("%s %d do=%t %s -> up=%d", a.name, a.qt, a.do, c, nUp))
 
 			qk := vdns.QKey(req.Question[0], a.do)
@@ -398,6 +451,10 @@ func TestVerifC05History(tt *testing.T) {
 
 			if resp == nil {
 				t.Fatalf("history %v: no response", hist)
+			}
+
+			if writes != 1 {
+				t.Fatalf("history %v: the client gets %d responses for one query (handler error => the server adds SERVFAIL); last: rcode %d", hist, writes, resp.Rcode)
 			}
 
 			if resp.Id != req.Id || len(resp.Question) != 1 || resp.Question[0] != req.Question[0] {
@@ -457,6 +514,10 @@ func TestVerifC05History(tt *testing.T) {
 					t.Fatalf("history %v: upstream request without an ECS option", hist)
 				}
 
+				for _, extra := range call.all[1:] {
+					t.Fatalf("history %v: upstream request carries a second ECS option %s (client %s)", hist, vdns.ECSPrefix(extra), c)
+				}
+
 				sub := vdns.ECSPrefix(call.ecs)
 				if !allowed[sub] {
 					t.Fatalf("history %v: upstream got subnet %s for client %s; allowed %v", hist, sub, c, allowed)
@@ -482,7 +543,7 @@ func TestVerifC05History(tt *testing.T) {
 
 			// P3: warm equals fresh.
 			fs := vc05NewStack(tt)
-			fresh, _, fcalls := vc05Exchange(t, fs, c, req.Copy())
+			fresh, _, fcalls, _ := vc05Exchange(t, fs, c, req.Copy())
 			if g, w := vdns.Canon(resp, vdns.CanonOpts{WithOPT: true}), vdns.Canon(fresh, vdns.CanonOpts{WithOPT: true}); g != w {
 				t.Fatalf("history %v\nwarm  %s\nfresh %s", hist, g, w)
 			}
@@ -553,6 +614,9 @@ func TestVerifC05History(tt *testing.T) {
 
 			if c.Mode == vc05Valid {
 				classes = append(classes, "valid-ecs")
+				if c.Second.IsValid() {
+					classes = append(classes, "two-ecs-options")
+				}
 			}
 
 			if scoped {
